@@ -376,7 +376,9 @@ Lemma exact2_1_ext f D (r r' : R -> R -> R -> R -> R) :
   (forall a x y g, r' a x y g = r a x y g) -> exact2_1 f D r -> exact2_1 f D r'.
 Proof. intros E H x y g Hd. destruct (H x y g Hd) as [H1 H2]. rewrite !E. auto. Qed.
 
-Ltac same_body := intros; unfold flip1, flip2; first [reflexivity | ring].
+(* the forward rule has the same body as the reverse rule, up to ring / field rewriting of the generated expressions *)
+Ltac same_body := intros; unfold flip1, flip2;
+  first [reflexivity | ring | autounfold with genrules; first [reflexivity | ring | field; side]].
 
 Lemma j_reciprocal : exact1 f_reciprocal (fun x => x <> 0) (flip1 jvp_reciprocal_0).
 Proof. apply (exact1_ext _ _ vjp_reciprocal_0); [same_body|exact r_reciprocal]. Qed.
